@@ -12,7 +12,8 @@ ID = "C01"
 FMTS = ["h5", "xtc", "trr", "dcd", "nc", "netcdf", "ncdf", "mdcrd", "crd", "xyz", "xyz.gz", "lammpstrj", "gro", "pdb", "pdb.gz", "dtr",
         "rst7", "ncrst"]
 RULE = ("case = (format from the 18 writable extensions, 1-6 frames, atom count from {1,2,3,8,9,10,11,12,40}, coordinate magnitude class from 1e-3 "
-        "nm up to the format's field limit incl. negative values, non-uniform / offset times, cell none / orthorhombic / triclinic / per-frame "
+        "nm up to the format's field limit incl. negative values (for the fixed-width formats pdb / gro / mdcrd / rst7 also 9e3 ... 2e8 nm: "
+        "both sides of every field width, all-positive or with negative values, up to values that must be refused), non-uniform / offset times, cell none / orthorhombic / triclinic / per-frame "
         "varying, gro precision 1-6, pdb ter/header/bfactors); oracle A = load back: frame and atom counts, coordinates within the format's "
         "stated precision, times and cells where the format stores them, in nm / ps / degrees; oracle B = an independent reader of the bytes "
         "(struct for TRR / DCD / XTC headers, netCDF4 and PyTables directly, fixed-column parsers for mdcrd / xyz / lammpstrj / gro / pdb / "
@@ -64,6 +65,11 @@ def strategy(draw, tier="quick"):
     if fmt in ("pdb", "pdb.gz") and na >= 1000:
         # load_pdb documents that a CRYST1 record implying more than 1000 atoms per nm^3 is taken for a dummy and dropped
         case["cell_scale"] = 30.0
+    if fmt in ("pdb", "pdb.gz", "gro", "mdcrd", "crd", "rst7") and size not in (1, 2) and draw(st.integers(0, 3)) == 0:
+        # fixed-width fields: magnitudes on both sides of the widths the field can take (with and without negative values, which
+        # cost one column more), up to values that must be refused
+        case["mag"] = draw(st.sampled_from([9.0e3, 9.9e5, 1.2e6, 9.0e6, 5.0e7, 2.0e8]))
+        case["signs"] = draw(st.sampled_from(["both", "positive"]))
     if fmt == "gro":
         case["precision"] = draw(st.integers(1, 6))
     if fmt in ("pdb", "pdb.gz"):
@@ -80,7 +86,10 @@ def build(case):
     rng = np.random.Generator(np.random.PCG64(case["seed"]))
     nf, na, mag = case["nf"], case["na"], case["mag"]
     xyz = rng.uniform(-1, 1, (nf, na, 3)) * mag
-    if mag >= 50:
+    if case.get("signs") == "positive":
+        xyz = np.abs(xyz)
+        xyz[:, 0] = mag * 0.99
+    elif mag >= 50:
         xyz[:, 0] = -mag * 0.99          # reach the negative field limit
     xyz = xyz.astype(np.float32)
     t = {"arange": np.arange(nf, dtype=np.float64), "offset": np.arange(nf) * 2.0 + 5.0,
@@ -157,6 +166,8 @@ def representable(fmt, case, tr):
             return False
     if fmt in ("pdb", "pdb.gz") and case["cell"] and float(tr.unitcell_lengths.max()) * 10 >= 99999.9995:
         return False
+    if fmt in ("pdb", "pdb.gz") and (neg <= -9999999.5 or float(tr.xyz.max()) * 10 >= 99999999.5):
+        return False     # 8 columns: at most 8 digits, or a sign and 7
     return True
 
 
